@@ -98,7 +98,10 @@ func main() {
 			raceSet[c] = true
 		}
 	}
-	agg := &ev.Aggregate{Property: id, Tier: *tier, Seed: *seed, Level: spec.Level, Rule: spec.Rule, Assume: spec.Assume, Start: time.Now()}
+	agg := &ev.Aggregate{Property: id, Tier: *tier, Seed: *seed, Level: spec.Level, Rule: spec.Rule, Assume: spec.Assume, Start: time.Now(), RequireTotals: spec.RequireTotals}
+	if *replay != "" || *only != "" {
+		agg.RequireTotals = nil // a subset of the cases cannot be asked for the whole run's scenario coverage
+	}
 	tmp, err := os.MkdirTemp("", "vcheck-"+id+"-")
 	if err != nil {
 		fmt.Fprintln(os.Stderr, err)
